@@ -154,10 +154,14 @@ Proof.
   vm_compute. reflexivity.
 Qed.
 
-(* The domain restriction of the well-formed lock programs is needed: hashRegistration puts the
-   registration's fee recipient in with a bare PutBytes, so a 21-byte value ending in 00 (outside
-   the declared Bytes20) has the root of the 20-byte one.  Nothing else in lock verification looks
-   at that field's length (harness finding registration-fee-recipient-padding). *)
+(* The domain restriction of the well-formed lock programs is needed at the level of the hash:
+   hashRegistration puts the registration's fee recipient in with a bare PutBytes, so a 21-byte
+   value ending in 00 (outside the declared Bytes20) has the root of the 20-byte one, for every
+   hash function.  Before the fix "lock verification checks the length of builder registration fee
+   recipient and public key" nothing in lock verification looked at that length and the altered
+   lock verified (finding registration-fee-recipient-padding, F14); since the fix
+   verifyBuilderRegistrations enforces exactly this domain condition (20 / 48 bytes), and the
+   harness reports a VIOLATION if such a file verifies again. *)
 Definition reg_lock (fee : list N) : value :=
   VStruct [("Definition", VStruct [("ConfigHash", VBytes (repeat 0 32))]); ("Validators", VList [VStruct [("BuilderRegistration",
     VStruct [("Message", VStruct [("FeeRecipient", VBytes fee)])])]])].
